@@ -607,6 +607,13 @@ def r07_8(ctx):
         "a sample point of other is off self": (base, base, False, False),
         "reversed orientation": (base, [tuple(reversed(s)) for s in reversed(base)], True, False),
     }
+    # a single segment that differs (same end points, another interior control point), at every position of the chain
+    # and for every start of the other curve: no segment is left out of the comparison
+    alt = [("A", "z", "B"), ("B", "x", "C"), ("C", "r", "t", "D"), ("D", "z", "A")]
+    for k in range(4):
+        changed = base[:k] + [alt[k]] + base[k + 1:]
+        for r in range(4):
+            worlds[f"segment {k} differs, the other curve started {r} segment(s) later"] = (base, changed[r:] + changed[:r], True, False)
     # the same square with one redundant vertex each, on different edges: as many segments, equal only once cleaned
     sq = [("A", "B"), ("B", "C"), ("C", "D"), ("D", "A")]
     cut_ab = [("A", "M"), ("M", "B"), ("B", "C"), ("C", "D"), ("D", "A")]
